@@ -76,9 +76,22 @@ def main(dirs):
             elif "cursor-inside-triple-closing-quote" in k:
                 what = ("Cursor inside a three-character closing quote: parse(\"''''''\", 4) (likewise (\"'''a'''\", 5)) reports the cursor as inside the string, before a complete closing ''' quote: "
                         "handle_command_arg's 'cursor is inside the closing quote' branch tests `>= len(opening+value+closing)` and is never taken; expected a prefix/suffix that split the closing quote at the cursor.")
+            elif "hang:_tokenize:fstring-unterminated-at-newline" in k:
+                what = ("CompletionContextParser.parse(\"f'\\n\", 0) never returns (likewise f\"..., rf', F' ...: any single-quoted f-string still open at a newline, at every cursor position): the tolerant tokenizer's PEP 701 "
+                        "scanning loop in tokenize._tokenize spins forever, so pressing Tab on such a buffer freezes the prompt; expected a context or None.")
+            elif "fstring-pieces" in k:
+                what = (f"parse({c['text']!r}, {c['cursor']}): {r['observed']}. f-strings reach the analyser as FSTRING_START/MIDDLE/END pieces that it glues back from token values and positions "
+                        + ("- a doubled brace '{{' / '}}' comes back as one character, so prefix + suffix no longer spell the word and at its end an empty prefix is reported"
+                           if "doubled-brace" in k else
+                           "- in a triple-quoted f-string that spans a newline the pieces after the newline are misplaced / repeated (e.g. prefix \"f'''\\n{\\n{\" for the text \"f'''\\n{\")")
+                        + "; the same text without the f prefix is analysed correctly.")
             else:
                 unknown.append(k)
                 continue
+        elif c["part"] == "roundtrip-multi":
+            o = r["observed"]
+            what = (f"directory with {c['names']!r}, line {c['line']!r} with the cursor at {c['cursor']}, candidates visited in the order {c['order']!r}: completion {o['completion']!r} gives "
+                    f"{o['spliced_line']!r}, which runs as {o['argv_calls']!r} - none of the entries ({o['visiting_orders_failing']} of {o['visiting_orders_total']} visiting orders fail).")
         else:
             _, style, shape, cls, kinds = k.split(":")
             f = fam(style, shape, cls)
